@@ -447,7 +447,19 @@ TERMINAL_COMMANDS = [
     ('cnfgen', ['--seed', '3', 'randkcnf', '3', '8', '12']), ('pbgen', ['php', '3', '2']), ('cnfgen', ['-q', 'peb', 'kthlist', '@DAG']),
     ('cnfgen', ['--seed', '9', 'kcolor', '3', 'gnp', '6', '0.5']), ('cnfgen', ['--seed', '9', 'php', '4', '3', '-T', 'xorcomp', 'glrd', '12', '8', '3']),
     ('cnfgen', ['-of', 'latex', 'op', '3']), ('pbgen', ['--varnames', 'subsetcard', '--seed', '2', '4', '2']),
+    # long header lines (a graph description with two modifiers), in the three formats
+    ('cnfgen', ['--seed', '9', 'kcolor', '3', 'gnp', '8', '0.5', 'plantclique', '4', 'addedges', '3']),
+    ('pbgen', ['--seed', '4', 'domset', '2', 'gnm', '7', '9', 'addedges', '2', 'splitedges', '1']),
+    ('cnfgen', ['--seed', '4', '-of', 'latex', 'tseitin', 'randomodd', 'gnd', '8', '3', 'addedges', '2', '-T', 'shuffle']),
 ]
+
+
+# environments that are no part of the command line: window size, terminal type, time zone, user, home, locale, and the date
+ENV_MODES = [('COLUMNS=40 LINES=10', {'COLUMNS': '40', 'LINES': '10'}), ('COLUMNS=300', {'COLUMNS': '300'}),
+             ('TERM=dumb NO_COLOR=1', {'TERM': 'dumb', 'NO_COLOR': '1'}), ('TERM=xterm-256color', {'TERM': 'xterm-256color', 'COLORTERM': 'truecolor'}),
+             ('TZ=Pacific/Kiritimati', {'TZ': 'Pacific/Kiritimati'}), ('another user and home', {'USER': 'somebody', 'LOGNAME': 'somebody', 'HOME': '@EMPTY'}),
+             ('LANG=tr_TR.UTF-8', {'LANG': 'tr_TR.UTF-8', 'LC_ALL': 'tr_TR.UTF-8'}),
+             ('one year later', {'VERIF_CLOCK_OFFSET': str(366 * 86400)}), ('forty years earlier', {'VERIF_CLOCK_OFFSET': str(-40 * 365 * 86400)})]
 
 
 def run_terminal(case):
@@ -464,9 +476,19 @@ def run_terminal(case):
             fh.write("4\n1 : 0\n2 : 0\n3 : 1 2 0\n4 : 3 0\n")
         argv = [{'@CNF': 'f.cnf', '@DAG': 'g.kthlist'}.get(a, a) for a in args]
         outs = []
-        for mode in ('stdin=/dev/null', 'stdin=terminal', 'stdin+stderr=terminal'):
+        from vlib.core import VERIF_DIR
+        repo = os.environ.get('VERIF_REPO', '/repo')
+        clock = {'PYTHONPATH': repo + os.pathsep + os.path.join(VERIF_DIR, 'vlib', 'fakeclock')}
+        for mode in ('stdin=/dev/null',) + tuple(case.get('modes') or (('stdin=terminal', 'stdin+stderr=terminal') + tuple(m for m, _ in ENV_MODES))):
             if mode == 'stdin=/dev/null':
                 r = cli.run_subprocess(tool, argv, cwd=d, hashseed=case.get('hashseed', '0'), stdin_fd=__import__('subprocess').DEVNULL)
+            elif mode in dict(ENV_MODES):
+                env = dict(dict(ENV_MODES)[mode])
+                if 'VERIF_CLOCK_OFFSET' in env:
+                    env.update(clock)
+                if env.get('HOME') == '@EMPTY':
+                    env['HOME'] = os.path.join(d, 'nobody home')
+                r = cli.run_subprocess(tool, argv, cwd=d, hashseed=case.get('hashseed', '0'), stdin_fd=__import__('subprocess').DEVNULL, extra_env=env)
             else:
                 master, slave = pty.openpty()
                 try:
@@ -492,15 +514,22 @@ def run_terminal(case):
 
 def enum_terminal(tier):
     for i, (tool, args) in enumerate(TERMINAL_COMMANDS):
-        if tier == 'quick' and i % 2 and i > 8:
+        if tier == 'quick' and i % 2 and 8 < i < 16:
             continue
-        yield {'tool': tool, 'args': args, 'hashseed': str(i % 3)}
+        c = {'tool': tool, 'args': args, 'hashseed': str(i % 3)}
+        if tier == 'quick':
+            # a rotating third of the attachments and environments; window size and clock always for the long headers
+            allm = ['stdin=terminal', 'stdin+stderr=terminal'] + [m for m, _ in ENV_MODES]
+            c['modes'] = [m for k, m in enumerate(allm) if (k + i) % 3 == 0]
+            if i >= 16:
+                c['modes'] = sorted(set(c['modes'] + ['COLUMNS=40 LINES=10', 'one year later']))
+        yield c
 
 
 
 SUBCHECKS = [
     SubCheck('terminal', run_terminal, enumerate_cases=enum_terminal, quick=0, thorough=0, opt_pass=False, max_shards=4,
-             rule="sixteen command lines of the four tools that do not read their standard input (formula and graph given by file name, or a family), each as a real process with its standard input on /dev/null, on a pseudo-terminal, and with standard input and standard error on a pseudo-terminal; oracle: same exit status and the same bytes on the standard output - what the process is attached to is not part of the command line; non-trivial: some output",
+             rule="nineteen command lines of the four tools that do not read their standard input (formula and graph given by file name, or a family), each as a real process with its standard input on /dev/null, on a pseudo-terminal, and with standard input and standard error on a pseudo-terminal, then under nine environments that are no part of the command line (window size through COLUMNS/LINES, terminal type and colour switches, time zone, another user and an empty home directory, a Turkish locale, and a clock shifted by +1 and -40 years through a start-up hook of the child interpreter, vlib/fakeclock); (quick tier: a rotating third of these per command line); oracle: same exit status and the same bytes on the standard output as in the first run; non-trivial: some output",
              required_labels=['terminal', 'cnfgen', 'pbgen', 'cnfshuffle', 'kthlist2pebbling']),
     SubCheck('inproc', run_inproc, strategy=strat_inproc, quick=800, thorough=60000,
              rule="command lines with --seed (seeds 0, 1, -1, 2^31, 2^64+3 and random; the option spelled '--seed N', '-S N', '--seed=N', '-SN' or '--see N') for cnfgen (+ -T chains), pbgen and cnfshuffle (DIMACS on stdin): every graph-taking sub-command with random and deterministic graph constructions and random modifiers, numeric random sub-commands, deterministic ones, '-T xorcomp|majcomp <random bipartite construction>' with the graph sampled while the command line is parsed, all output formats; oracle: two in-process runs of main() started from two different states of the global generator print identical (exit status, stdout, stderr) and no object address; in a fifth of the cases a second, earlier --seed is put in front and the output (apart from the header line quoting the command line) must be the one of the last value alone; non-trivial: exit 0 and the global generator was advanced past a freshly seeded state (the run drew random numbers)",
